@@ -1,7 +1,7 @@
 package batchers
 
 const (
-	zzFileLen = 3
-	zzFiles   = 2
+	zzFileLen     = 3
+	zzFiles       = 2
 	zzRacePreempt = 2
 )
